@@ -156,7 +156,9 @@ def run_unit(unit, ctx):
         if prev_dt is not None and pi % 2 == 1:
             pt[defn["dt"]] = prev_dt
         prev_dt = pt[defn["dt"]]
-        st = ekf.State(**{s: pt[s] for s in defn["state"]})
+        st, st_kind = gen.typed_state(rng, defn, pt, ekf.State, monitors.names_of)
+        if st_kind:
+            R.stats.inc(f"states_handed_over_as_{st_kind}")
         ct = ekf.Control(**{c: pt[c] for c in defn["control"]})
         dt = float(pt[defn["dt"]])
         try:
